@@ -41,6 +41,11 @@ DEFS = {
    "DESIGN.md 4.5",
    "The reference model encodes my reading of the documented option meanings; option domain restricted accordingly. Sample sets/options are generated workload; the simulated dimensions are enumeration order, clock and file objects.",
    "deterministic simulation: in-process CLI behind simulated directory order / clock / file seams, differential oracle vs executable reference model of the front end, event-log based ordering check"),
+ "C17": ("fault_enumeration",
+   "Systematic fault enumeration: for every base scenario (good multi-file CLI scenario whose fault-free control passes) every fault kind (missing file, dangling symlink, directory, torn/flipped/empty JSON/YAML/INI - kept only if an independent parser fails too -, wrong lookup, non-object sample, non-string keys, invalid arguments, bad framework/generator combinations, raising custom generator, crash injected at seeded line events of generation, read errors at open / mid-read) x position of the faulty file (first/middle/last, own argument / glob member) x output mode (stdout, -o absent, -o present with non-UTF-8 sentinel) is executed by the real cli.main() behind simulated seams; oracle: exit status != 0, no model code on stdout, sentinel bytes identical. Write errors check only 'exit 0 implies complete text'. Thorough tier re-runs sampled scenarios with the real CLI process.",
+   "DESIGN.md 4.6",
+   "In-process exit-status emulation (SystemExit code / uncaught exception -> 1) is validated against the real process only in the thorough tier. Dynamic I/O faults rely on the CLI opening files through cli.Path.open / cli.open; state faults do not.",
+   "deterministic simulation: fault enumeration (state faults in a scratch file system, interposed I/O errors, trace-based crash points) over in-process CLI runs, final-state + event-log oracle"),
  "C15": ("exploration",
    "Seeded search over thread interleavings: 1-8 independent pipelines on real threads under a baton scheduler that pre-empts at line (and, in the thread-local context code, opcode) events inside repository frames; every thread's outcome must equal the outcome of the same pipeline alone in a pristine process. A clean batch is evidence over the sampled interleavings, not proof.",
    "DESIGN.md 4.4",
